@@ -108,6 +108,11 @@ def run(res, tier, seed, wd, replay=None):
     res.sample({"kind": "stress scenario", "cfg": s["sample"]})
     traces.append(trB)
     ntr += s["runs"]
+    # the composed stack: the same execution judged at queue level (drain, stop, release of a real buffered sink)
+    stack_model(res, wd)
+    trSq, _tw, nstack = stack_traces(res, tier, seed, wd)
+    traces.append(trSq)
+    ntr += nstack
     allf = os.path.join(wd, "trace-all.ndjson")
     nev = concat(traces, allf)
     v = validate_trace("QueueTrace", allf, wd, timeout=3000)
@@ -119,6 +124,8 @@ def run(res, tier, seed, wd, replay=None):
         e = events[runline - 1]
         if "beh" in e:
             return {"how": "queue-replay", "behaviour": e.get("behaviour")}
+        if e.get("stack"):
+            return {"how": "stack-drive", "run": e.get("run"), "args": ["--seed", seed]}
         return {"how": "queue-stress", "args": ["--seed", seed, "--runs", runs], "run": e.get("run")}
     judge(res, v, events, origin)
     res.cov["traces_validated_against_impl"] = ntr
